@@ -120,6 +120,8 @@ Record scfg := {
   sc_test : bool;              (* testNowMS != nil: step mode *)
   sc_dur : option Z;           (* Duration *)
   sc_chunked : bool;           (* cfg.ChunkDurS != nil: chunked transfer through cmafSource *)
+  sc_catchup_checks : bool;    (* the catch-up loop looks at lastSegNrToSend (false: the pinned code; true:
+                                  proposed_fixes/C16-catchup-duration.diff; read from the source by the harness) *)
   sc_avail : Z -> res Z        (* calcSegmentAvailabilityTime(asset, refRep, nr, cfg) *)
 }.
 
@@ -268,7 +270,9 @@ Definition advance (cf : scfg) (st : sstate) : sstate :=
   end.
 
 (** The catch-up loop of real-time mode: while the next availability time is not in the future,
-    send that segment at once (never marked last, no check against lastSegNrToSend). *)
+    send that segment at once.  In the pinned code never marked last and without a look at
+    lastSegNrToSend ([sc_catchup_checks = false]); with the proposed repair the loop ends after the
+    last number and marks it. *)
 Fixpoint catchup (cf : scfg) (clock : list Z) (st : sstate) : list (list mput) * sstate :=
   match clock with
   | [] => ([], st)
@@ -276,7 +280,8 @@ Fixpoint catchup (cf : scfg) (clock : list Z) (st : sstate) : list (list mput) *
     match ph st with
     | PRunning =>
       if availT st - now <=? 0 then
-        match sendMedia cf (nextNr st) (availT st) false with
+        if sc_catchup_checks cf && (0 <=? lastToSend st) && (lastToSend st <? nextNr st) then ([], stopped st) else
+        match sendMedia cf (nextNr st) (availT st) (sc_catchup_checks cf && (nextNr st =? lastToSend st)) with
         | Ok g => let '(gs, st') := catchup cf clock' (afterSend cf [] g (advance cf st)) in (g :: gs, st')
         | Err _ => ([], stopped st)
         | Panic s => ([], crashed s st)
@@ -352,11 +357,12 @@ Definition session (cf : scfg) (nowMS : Z) (initres : list bool) (evs : list eve
   let '(gs, st1) := run cf st0 evs in (inits, gs, st1).
 
 (** The configuration with the code's own availability function. *)
-Definition mk_scfg_r (rm : rounding) (reps : list irep) (refr : rep) (loopMS segDurMS : Z) (c : tcfg)
+Definition mk_scfg_rc (rm : rounding) (cc : bool) (reps : list irep) (refr : rep) (loopMS segDurMS : Z) (c : tcfg)
            (timeline test : bool) (dur : option Z) (chunked : bool) : scfg :=
   {| sc_reps := reps; sc_ref := refr; sc_loopMS := loopMS; sc_segDurMS := segDurMS; sc_cfg := c;
-     sc_timeline := timeline; sc_test := test; sc_dur := dur; sc_chunked := chunked;
+     sc_timeline := timeline; sc_test := test; sc_dur := dur; sc_chunked := chunked; sc_catchup_checks := cc;
      sc_avail := availMS_float_r rm refr loopMS c |}.
+Definition mk_scfg_r (rm : rounding) := mk_scfg_rc rm false.
 Definition mk_scfg := mk_scfg_r RCeil.
 
 (** * 3. The cmafSource hand-over *)
